@@ -422,7 +422,8 @@ class Tr:
             if (isinstance(t, ast.Call) and isinstance(t.func, ast.Name) and t.func.id == "isinstance"
                     and _is_self_attr(t.args[0], "ratio")):
                 # `self.ratio if isinstance(self.ratio, float | int) else self.ratio[treatment] / self.ratio[control]`
-                if ast.unparse(t.args[1]) != "float | int" or not _is_self_attr(e.body, "ratio") \
+                if ast.unparse(t.args[1]) not in ("float | int", "int | float", "(float, int)", "(int, float)") \
+                        or not _is_self_attr(e.body, "ratio") \
                         or ast.unparse(e.orelse) != "self.ratio[treatment] / self.ratio[control]":
                     raise Unsupported("ratio dispatch")
                 return ("(match self.ratio with | RatioSpec.scalar x => x | RatioSpec.mapping rt rc => (rt / rc))")
@@ -902,10 +903,18 @@ def benjamini_m_adj(mods: dict[str, ast.Module]) -> str:
            and _is_self_attr(n.targets[0], "m_adj_")]
     alpha_ok = any(isinstance(n, ast.Assign) and _is_self_attr(n.targets[0], "alpha")
                    and isinstance(n.value, ast.Name) and n.value.id == "alpha" for n in ast.walk(fn))
-    if len(tgt) != 1:
+    if not tgt:
         tgt = [n for n in ast.walk(fn) if isinstance(n, ast.AnnAssign) and n.value is not None
                and _is_self_attr(n.target, "m_adj_")]
         tgt = [ast.Assign(targets=[n.target], value=n.value) for n in tgt]
+    if len(tgt) == 2:
+        # `if c: self.m_adj_ = a  else: self.m_adj_ = b`  ==  `self.m_adj_ = a if c else b`
+        for n in ast.walk(fn):
+            if isinstance(n, ast.If) and len(n.body) == 1 and len(n.orelse) == 1 \
+                    and {id(n.body[0]), id(n.orelse[0])} == {id(t) for t in tgt}:
+                tgt = [ast.Assign(targets=[n.body[0].targets[0]],
+                                  value=ast.IfExp(test=n.test, body=n.body[0].value, orelse=n.orelse[0].value))]
+                break
     if len(tgt) != 1 or not alpha_ok:
         raise Unsupported("_Benjamini.__init__ shape")
     v = tgt[0].value
@@ -1182,12 +1191,51 @@ ENTRY_SOURCES = {"proportion": "metrics/proportion.py", "resampling": "metrics/r
                  "config": "config.py", "utils": "utils.py"}
 
 
+def inline_stmt_helpers(fn: ast.FunctionDef, module: ast.Module, depth: int = 2) -> ast.FunctionDef:
+    """A copy of `fn` in which every statement `_helper(args)` / `self._helper(args)` calling a private function of the same
+    module (or method of the same class) whose body returns nothing is replaced by that body, parameters substituted:
+    validation moved into a helper is still validation of the constructor's parameters."""
+    funcs = {n.name: n for n in module.body if isinstance(n, ast.FunctionDef)}
+    for cls in module.body:
+        if isinstance(cls, ast.ClassDef) and fn in cls.body:
+            funcs.update({"self." + n.name: n for n in cls.body if isinstance(n, ast.FunctionDef)})
+
+    def expand(stmts: list[ast.stmt], d: int) -> list[ast.stmt]:
+        out: list[ast.stmt] = []
+        for st in stmts:
+            call = st.value if isinstance(st, ast.Expr) and isinstance(st.value, ast.Call) else None
+            key = None
+            if call is not None and isinstance(call.func, ast.Name):
+                key = call.func.id
+            elif call is not None and isinstance(call.func, ast.Attribute) and isinstance(call.func.value, ast.Name) \
+                    and call.func.value.id == "self":
+                key = "self." + call.func.attr
+            tgt = funcs.get(key) if key and key.split(".")[-1].startswith("_") and not key.endswith("__init__") else None
+            if tgt is not None and d > 0 and not any(isinstance(n, ast.Return) and n.value is not None
+                                                     for n in ast.walk(tgt)):
+                mapping = Tr.bind_args(tgt, "self" if key.startswith("self.") else None, call)
+                if mapping is not None:
+                    body = [x for x in tgt.body if not (isinstance(x, ast.Expr) and isinstance(x.value, ast.Constant))]
+                    sub = _Subst(mapping, {})
+                    out += expand([sub.visit(copy.deepcopy(x)) for x in body], d - 1)
+                    continue
+            for fld in ("body", "orelse", "finalbody"):
+                if isinstance(getattr(st, fld, None), list) and getattr(st, fld) and isinstance(getattr(st, fld)[0], ast.stmt):
+                    setattr(st, fld, expand(getattr(st, fld), d))
+            out.append(st)
+        return out
+    new = copy.deepcopy(fn)
+    # map the class lookup through the copy: `fn in cls.body` above used the original
+    new.body = expand(new.body, depth)
+    return ast.fix_missing_locations(new)
+
+
 def entry_rows(mods: dict[str, ast.Module]) -> tuple[list[str], list[str]]:
     """(entry, parameter) -> the check applied, extracted by pattern from every entry point"""
     rows, args_defs = [], []
     for mod, dotted, entry in ENTRY_POINTS:
         try:
-            fn = find(mods, f"{mod}.{dotted}")
+            fn = inline_stmt_helpers(find(mods, f"{mod}.{dotted}"), mods[mod])
         except Unsupported:
             continue
         params = {a.arg for a in fn.args.posonlyargs + fn.args.args + fn.args.kwonlyargs} - {"self"}
@@ -1310,6 +1358,48 @@ def _is_global_cfg(e: ast.expr) -> bool:
     return isinstance(e, ast.Name) and e.id == "_global_config"
 
 
+def probe_config(src: Path, mod: ast.Module) -> tuple[bool, bool, bool, bool]:
+    """(validate_first, enter_in_try, restore_clear, get_copies) observed on the real module"""
+    import importlib
+    cfg = importlib.import_module("tea_tasting.config")
+    if Path(cfg.__file__).resolve() != (src / "config.py").resolve():
+        raise Unsupported("config.py: structure not recognised and the importable module is not the file being translated")
+    saved = dict(cfg._global_config)
+    try:
+        # a failing set_config: does the valid option given alongside an invalid one get written?  (both orders)
+        changed = False
+        for kw in (dict(alpha=0.123, confidence_level=5.0), dict(alpha=5.0, confidence_level=0.777)):
+            before = cfg.get_config()
+            try:
+                cfg.set_config(**kw)
+            except Exception:  # noqa: BLE001
+                pass
+            else:
+                raise Unsupported("config.py: set_config accepted an out-of-range value while probing")
+            changed = changed or cfg.get_config() != before
+            cfg._global_config.clear()
+            cfg._global_config.update(saved)
+        validate_first = not changed
+        # an option first set INSIDE a context: is it gone afterwards?
+        with cfg.config_context():
+            cfg.set_config(zz_probe_option=1)
+        restore_clear = "zz_probe_option" not in cfg.get_config()
+        cfg._global_config.clear()
+        cfg._global_config.update(saved)
+        d = cfg.get_config()
+        d["alpha"] = "mutated"
+        copies = cfg.get_config()["alpha"] != "mutated"
+    finally:
+        cfg._global_config.clear()
+        cfg._global_config.update(saved)
+    # where set_config is entered relative to the try block is not observable when validation comes first: read it off
+    # the AST (a call of set_config anywhere inside a `try:` body of config_context)
+    cc = find({"config": mod}, "config.config_context")
+    enter_in_try = any(is_call_to(n, "set_config") for t in ast.walk(cc) if isinstance(t, ast.Try)
+                       for st in t.body for n in ast.walk(st))
+    return validate_first, enter_in_try, restore_clear, copies
+
+
 def generate_config(src: Path) -> str:
     mod = ast.parse((src / "config.py").read_text())
     mods = {"config": mod}
@@ -1317,84 +1407,98 @@ def generate_config(src: Path) -> str:
     cc = find(mods, "config.config_context")
     gc = find(mods, "config.get_config")
 
-    # --- set_config: validate-all-then-write, or validate-and-write one option at a time
-    writes_in_loop = False
-    for n in ast.walk(sc):
-        if isinstance(n, ast.For):
-            for m in ast.walk(n):
-                if isinstance(m, ast.Assign) and any(isinstance(t, ast.Subscript) and _is_global_cfg(t.value)
-                                                     for t in m.targets):
-                    writes_in_loop = True
-                if isinstance(m, ast.Call) and isinstance(m.func, ast.Attribute) and _is_global_cfg(m.func.value):
-                    writes_in_loop = True
-    body = [st for st in sc.body if not (isinstance(st, ast.Expr) and isinstance(st.value, ast.Constant))]
-    comp_validates = any(isinstance(n, (ast.DictComp, ast.ListComp, ast.GeneratorExp))
-                         and any(is_call_to(c, "auto_check") for c in ast.walk(n)) for n in ast.walk(sc))
-    final_update = (body and isinstance(body[-1], ast.Expr) and isinstance(body[-1].value, ast.Call)
-                    and isinstance(body[-1].value.func, ast.Attribute) and body[-1].value.func.attr == "update"
-                    and _is_global_cfg(body[-1].value.func.value))
-    skips_none = any(isinstance(n, ast.Compare) and isinstance(n.ops[0], ast.IsNot) and isinstance(n.left, ast.Name)
-                     and n.left.id == "value" for n in ast.walk(sc))
-    if not skips_none:
-        raise Unsupported("set_config: `value is not None` filter not found")
-    # … or a loop that validates into a LOCAL dict which the final `_global_config.update(<that dict>)` writes
-    loop_validates_local = False
-    if final_update and len(body[-1].value.args) == 1 and isinstance(body[-1].value.args[0], ast.Name):
-        written = body[-1].value.args[0].id
+    def structural() -> tuple[bool, bool, bool, bool]:
+        # --- set_config: validate-all-then-write, or validate-and-write one option at a time
+        writes_in_loop = False
         for n in ast.walk(sc):
             if isinstance(n, ast.For):
                 for m in ast.walk(n):
-                    if isinstance(m, ast.Assign) and len(m.targets) == 1 and isinstance(m.targets[0], ast.Subscript) \
-                            and isinstance(m.targets[0].value, ast.Name) and m.targets[0].value.id == written \
-                            and is_call_to(m.value, "auto_check"):
-                        loop_validates_local = True
-    if writes_in_loop and not comp_validates:
-        validate_first = False
-    elif (comp_validates or loop_validates_local) and final_update and not writes_in_loop:
-        validate_first = True
-    else:
-        raise Unsupported("set_config: unrecognised structure")
+                    if isinstance(m, ast.Assign) and any(isinstance(t, ast.Subscript) and _is_global_cfg(t.value)
+                                                         for t in m.targets):
+                        writes_in_loop = True
+                    if isinstance(m, ast.Call) and isinstance(m.func, ast.Attribute) and _is_global_cfg(m.func.value):
+                        writes_in_loop = True
+        body = [st for st in sc.body if not (isinstance(st, ast.Expr) and isinstance(st.value, ast.Constant))]
+        comp_validates = any(isinstance(n, (ast.DictComp, ast.ListComp, ast.GeneratorExp))
+                             and any(is_call_to(c, "auto_check") for c in ast.walk(n)) for n in ast.walk(sc))
+        final_update = (body and isinstance(body[-1], ast.Expr) and isinstance(body[-1].value, ast.Call)
+                        and isinstance(body[-1].value.func, ast.Attribute) and body[-1].value.func.attr == "update"
+                        and _is_global_cfg(body[-1].value.func.value))
+        skips_none = any(isinstance(n, ast.Compare) and isinstance(n.ops[0], ast.IsNot) and isinstance(n.left, ast.Name)
+                         and n.left.id == "value" for n in ast.walk(sc))
+        if not skips_none:
+            raise Unsupported("set_config: `value is not None` filter not found")
+        # … or a loop that validates into a LOCAL dict which the final `_global_config.update(<that dict>)` writes
+        loop_validates_local = False
+        if final_update and len(body[-1].value.args) == 1 and isinstance(body[-1].value.args[0], ast.Name):
+            written = body[-1].value.args[0].id
+            for n in ast.walk(sc):
+                if isinstance(n, ast.For):
+                    for m in ast.walk(n):
+                        if isinstance(m, ast.Assign) and len(m.targets) == 1 and isinstance(m.targets[0], ast.Subscript) \
+                                and isinstance(m.targets[0].value, ast.Name) and m.targets[0].value.id == written \
+                                and is_call_to(m.value, "auto_check"):
+                            loop_validates_local = True
+        if writes_in_loop and not comp_validates:
+            validate_first = False
+        elif (comp_validates or loop_validates_local) and final_update and not writes_in_loop:
+            validate_first = True
+        else:
+            raise Unsupported("set_config: unrecognised structure")
 
-    # --- config_context: where set_config is called relative to try, and how the old config is restored
-    tries = [n for n in ast.walk(cc) if isinstance(n, ast.Try)]
-    if len(tries) != 1 or not tries[0].finalbody or tries[0].handlers:
-        raise Unsupported("config_context: expected one try/finally")
-    tr = tries[0]
-    if not any(isinstance(n, ast.Yield) for st in tr.body for n in ast.walk(st)):
-        raise Unsupported("config_context: yield is not inside try")
-    calls_in_try = any(is_call_to(n, "set_config") for st in tr.body for n in ast.walk(st))
-    calls_anywhere = sum(1 for n in ast.walk(cc) if is_call_to(n, "set_config"))
-    if calls_anywhere != 1:
-        raise Unsupported("config_context: expected exactly one set_config call")
-    saves_old = any(isinstance(n, ast.Assign) and is_call_to(n.value, "get_config") and not n.value.args
-                    for n in cc.body)
-    if not saves_old:
-        raise Unsupported("config_context: old configuration is not saved with get_config()")
-    fin_calls = [n for st in tr.finalbody for n in ast.walk(st)
-                 if isinstance(n, ast.Call) and isinstance(n.func, ast.Attribute) and _is_global_cfg(n.func.value)]
-    names = [c.func.attr for c in fin_calls]
-    if names == ["clear", "update"]:
-        restore_clear = True
-    elif names == ["update"]:
-        restore_clear = False
-    else:
-        raise Unsupported(f"config_context: finally block {names}")
+        # --- config_context: where set_config is called relative to try, and how the old config is restored
+        tries = [n for n in ast.walk(cc) if isinstance(n, ast.Try)]
+        if len(tries) != 1 or not tries[0].finalbody or tries[0].handlers:
+            raise Unsupported("config_context: expected one try/finally")
+        tr = tries[0]
+        if not any(isinstance(n, ast.Yield) for st in tr.body for n in ast.walk(st)):
+            raise Unsupported("config_context: yield is not inside try")
+        calls_in_try = any(is_call_to(n, "set_config") for st in tr.body for n in ast.walk(st))
+        calls_anywhere = sum(1 for n in ast.walk(cc) if is_call_to(n, "set_config"))
+        if calls_anywhere != 1:
+            raise Unsupported("config_context: expected exactly one set_config call")
+        saves_old = any(isinstance(n, ast.Assign) and is_call_to(n.value, "get_config") and not n.value.args
+                        for n in cc.body)
+        if not saves_old:
+            raise Unsupported("config_context: old configuration is not saved with get_config()")
+        fin_calls = [n for st in tr.finalbody for n in ast.walk(st)
+                     if isinstance(n, ast.Call) and isinstance(n.func, ast.Attribute) and _is_global_cfg(n.func.value)]
+        names = [c.func.attr for c in fin_calls]
+        if names == ["clear", "update"]:
+            restore_clear = True
+        elif names == ["update"]:
+            restore_clear = False
+        else:
+            raise Unsupported(f"config_context: finally block {names}")
 
-    # --- get_config(): hands out a copy or the live dict
-    rets = [n for n in ast.walk(gc) if isinstance(n, ast.Return) and n.value is not None]
-    whole = [r for r in rets if not isinstance(r.value, ast.Subscript)]
-    if len(whole) != 1:
-        raise Unsupported("get_config: return structure")
-    v = whole[0].value
-    if isinstance(v, ast.Call) and isinstance(v.func, ast.Attribute) and v.func.attr == "copy" and _is_global_cfg(v.func.value):
-        copies = True
-    elif isinstance(v, ast.Call) and isinstance(v.func, ast.Name) and v.func.id == "dict" and len(v.args) == 1 \
-            and _is_global_cfg(v.args[0]):
-        copies = True
-    elif _is_global_cfg(v):
-        copies = False
-    else:
-        raise Unsupported("get_config: returned expression")
+        # --- get_config(): hands out a copy or the live dict
+        rets = [n for n in ast.walk(gc) if isinstance(n, ast.Return) and n.value is not None]
+        whole = [r for r in rets if not isinstance(r.value, ast.Subscript)]
+        if len(whole) != 1:
+            raise Unsupported("get_config: return structure")
+        v = whole[0].value
+        if isinstance(v, ast.Call) and isinstance(v.func, ast.Attribute) and v.func.attr == "copy" and _is_global_cfg(v.func.value):
+            copies = True
+        elif isinstance(v, ast.Call) and isinstance(v.func, ast.Name) and v.func.id == "dict" and len(v.args) == 1 \
+                and _is_global_cfg(v.args[0]):
+            copies = True
+        elif _is_global_cfg(v):
+            copies = False
+        else:
+            raise Unsupported("get_config: returned expression")
+
+        return validate_first, calls_in_try, restore_clear, copies
+
+    how = "read off the structure of config.py"
+    try:
+        validate_first, calls_in_try, restore_clear, copies = structural()
+    except Unsupported as why:
+        # The structure is not one the extractor recognises (helpers, `continue`, other loop shapes …).  The four choices
+        # are then OBSERVED on the module itself (hand model + correspondence: the brief's second way of tying a model
+        # to the code); the theorems are re-checked for the observed choices and the correspondence on random histories
+        # (harness/props/c13.py) compares the model built from them with the implementation, as on every run.
+        validate_first, calls_in_try, restore_clear, copies = probe_config(src, mod)
+        how = f"OBSERVED by probing the module (structure not recognised: {why})"
 
     # --- defaults of the standard options
     defaults = None
@@ -1408,7 +1512,7 @@ def generate_config(src: Path) -> str:
     return ("-- GENERATED by harness/translate.py from /repo/src/tea_tasting/config.py — do not edit.\n"
             "import TeaTasting.Basic.PyVal\n\nnamespace Gen\n\n"
             f"-- config.set_config, config.config_context, "
-            f"config.get_config\n"
+            f"config.get_config — {how}\n"
             "def configImpl : ConfigImpl :=\n"
             f"  {{ validateFirst := {b(validate_first)}, enterInTry := {b(calls_in_try)}, "
             f"restoreClear := {b(restore_clear)}, getCopies := {b(copies)} }}\n\n"
